@@ -40,7 +40,7 @@ fn replay(_ctx: &Ctx, _group: &str, case: &Value) -> CaseResult {
 pub fn def() -> PropDef {
     PropDef {
         id: "C03",
-        rule: "A case is a history of up to 60 (200 in long-histories) operations with generated arguments over up to four OwningIovec slots sharing a pool of caller-owned bytes: push_borrowed / push_copy / push (sizes around 1..8, 64, 256, 4096, 8192, 70000, 0), extend, new_from_slices / collect, register_patch (0..4 bytes), backfill of any outstanding placeholder, clear, take, clone (only with no placeholder pending), drop, arena flush / ensure_capacity / take / swap between slots / new_from_arena, read_n + push_borrowed + push_anchor (optionally holding back a suffix), held AnchoredSlice operations, consume(k), advance_slices(n), pop_front (only with a non-empty stable prefix), Read::read. A shadow pipe model (bytes appended since the last clear, consumed count, pending placeholders) is kept per slot; after every operation, for every live slot: total_size = appended - consumed, consumable bytes equal the model at the same offsets, every consuming call returned exactly what the model removed, no exposed slice is empty, is_empty/len agree, and all read-side views (stable_prefix, iovs both arms, flatten both arms, flatten_into, front, iteration, stable_consumer) agree. Non-trivial: the history contains a merge (a push that did not add a slice), a byte consumption that stops inside a slice, and a second arena chunk or an anchored push. Distinct: hash of the serialised history.",
+        rule: "A case is a history of up to 60 (200 in long-histories) operations with generated arguments over up to four OwningIovec slots sharing a pool of caller-owned bytes: push_borrowed / push_copy / push (sizes around 1..8, 64, 256, 4096, 8192, 70000, 0), extend, new_from_slices / collect, register_patch (0..4 bytes, sometimes up to 4200), fill_chunk (use up the current arena chunk until 0..4200 bytes remain), backfill of any outstanding placeholder, clear, take, clone (only with no placeholder pending), drop, arena flush / ensure_capacity / take / swap between slots / new_from_arena, read_n + push_borrowed + push_anchor (optionally holding back a suffix), held AnchoredSlice operations, consume(k), advance_slices(n), pop_front (only with a non-empty stable prefix), Read::read. A shadow pipe model (bytes appended since the last clear, consumed count, pending placeholders) is kept per slot; after every operation, for every live slot: total_size = appended - consumed, consumable bytes equal the model at the same offsets, every consuming call returned exactly what the model removed, no exposed slice is empty, is_empty/len agree, and all read-side views (stable_prefix, iovs both arms, flatten both arms, flatten_into, front, iteration, stable_consumer) agree. Non-trivial: the history contains a merge (a push that did not add a slice), a byte consumption that stops inside a slice, and a second arena chunk or an anchored push. Distinct: hash of the serialised history.",
         assumptions: &[
             "borrowed buffers outlive every iovec (static pool)",
             "a Backref is used once, on the iovec (or taken iovec) that issued it, never after clear",
